@@ -20,6 +20,7 @@ class Target:
         self.n_calls = 0
         self.sleep_table = None
         self.clock = None  # virtual clock (C15): object with .advance(seconds)
+        self.out_dtype = spec.get("out_dtype")  # e.g. "float32": a model evaluated in single precision returns such scalars
         self.cost = 0.0
         k = self.kind
         if k == "gauss":
@@ -140,6 +141,9 @@ class Target:
             dt = self.sleep_table[(self.n_calls - 1) % len(self.sleep_table)]
             if dt > 0:
                 time.sleep(dt)
+        if self.out_dtype:
+            with np.errstate(all="ignore"):
+                v = np.dtype(self.out_dtype).type(v)
         return v
 
     # ------------------------------------------------------------------ exact law of pi^(1/T) (optionally restricted to a box)
